@@ -24,6 +24,7 @@ fn write_sources(root: &Path, files: &Value) {
 pub fn rounds(case: &Value) -> Value {
     let root = Path::new(case["dir"].as_str().unwrap()).to_path_buf();
     let mode = case["mode"].as_str().unwrap_or("zod").to_string();
+    let fresh = case["fresh_analyzer"].as_bool().unwrap_or(false);
     let mut analyzer = CommandAnalyzer::new();
     let mut generator = create_generator(Some(mode.clone()));
     let mut out = Vec::new();
@@ -36,6 +37,9 @@ pub fn rounds(case: &Value) -> Value {
             validation_library: mode.clone(),
             ..Default::default()
         };
+        if fresh {
+            analyzer = CommandAnalyzer::new();
+        }
         let res = (|| -> Result<String, Box<dyn std::error::Error>> {
             let commands = analyzer.analyze_project(&config.project_path)?;
             generator.generate_models(&commands, analyzer.get_discovered_structs(), &config.output_path, &analyzer, &config)?;
